@@ -309,8 +309,21 @@ func (sp *specParser) quant() *Expr {
 				sp.expectOp("..")
 				b.Hi = sp.expr(7)
 			}
-		} else if sp.peek().k == tIdent {
-			b.Type = sp.next().s
+		} else if sp.peek().k == tIdent || sp.isOp("*") {
+			// a Go type: optional pointer stars, identifier, optional package qualifier
+			for sp.isOp("*") {
+				sp.next()
+				b.Type += "*"
+			}
+			t := sp.next()
+			if t.k != tIdent {
+				sp.fail("binder type expected, got %q", t.s)
+			}
+			b.Type += t.s
+			if sp.isOp(".") {
+				sp.next()
+				b.Type += "." + sp.next().s
+			}
 		}
 		e.Binders = append(e.Binders, b)
 		if sp.isOp(",") {
